@@ -41,6 +41,7 @@ type aeCtx struct {
 	budget         time.Duration   // wall-clock budget of one context: beyond it the analysis gives up (undecided)
 	orderedConst   map[string]bool // term is compared by order (not just equality) with constants
 	stageMode      bool
+	symArith       bool                         // x+1 on an abstract integer is a derived term "(x+1)" (C05 desugaring tables only)
 	allowFirst     bool                         // model "i == 0" inside a zip loop as a position class (used by C14's queries only)
 	noStage        map[*ssa.Function]bool       // comparators whose operands are also read directly by the caller: inlined
 	directRead     map[string]bool              // term keys demanded directly by evaluated code
@@ -585,6 +586,19 @@ func (r *aeRun) binop(op token.Token, x, y any, t types.Type) any {
 			return avIndex{i.off + d}
 		}
 	}
+	if r.ctx.symArith && (op == token.ADD || op == token.SUB) && isIntType(t) {
+		// symbolic successor/predecessor: a value derived from the term (used when a desugared bound is
+		// assembled as text: the piece "(x+1)")
+		if tx, ok := x.(avTerm); ok {
+			if cy, ok := y.(avConst); ok && cy.v.Kind() == constant.Int {
+				sign := "+"
+				if op == token.SUB {
+					sign = "-"
+				}
+				return r.mkTerm("("+tx.key+sign+cy.v.ExactString()+")", tx.side, t, akOrder, []string{tx.key})
+			}
+		}
+	}
 	if op == token.ADD && isStringType(t) {
 		// string concatenation: a template of constant pieces and abstract values
 		if xs, ok := strParts(x); ok {
@@ -771,7 +785,42 @@ func (r *aeRun) call(fn *ssa.Function, args []any) any {
 	}
 	r.depth++
 	defer func() { r.depth-- }()
-	return r.exec(fr, fn.Blocks[0], nil)
+	return r.export(fr, r.exec(fr, fn.Blocks[0], nil), 0)
+}
+
+// avBox: a pointer to an object that outlived the activation that allocated it
+type avBox struct{ val any }
+
+// export detaches pointers to the returning activation's allocations from its frame
+func (r *aeRun) export(fr *frame, v any, depth int) any {
+	if depth > 6 {
+		return v
+	}
+	switch x := v.(type) {
+	case avAddr:
+		if x.alloc != nil && len(x.path) == 0 && x.alloc.Parent() == fr.fn {
+			if cur, ok := fr.mem[x.alloc]; ok {
+				return &avBox{r.export(fr, cur, depth+1)}
+			}
+		}
+	case avTuple:
+		out := make(avTuple, len(x))
+		for i, e := range x {
+			out[i] = r.export(fr, e, depth+1)
+		}
+		return out
+	case avList:
+		out := avList{base: x.base, elems: make([]any, len(x.elems))}
+		for i, e := range x.elems {
+			out.elems[i] = r.export(fr, e, depth+1)
+		}
+		return out
+	case *avStruct:
+		for i, f := range x.fields {
+			x.fields[i] = r.export(fr, f, depth+1)
+		}
+	}
+	return v
 }
 
 func (c *aeCtx) loopsOf(fn *ssa.Function) []*loop {
@@ -1077,6 +1126,9 @@ func (r *aeRun) store(fr *frame, addr, val any) {
 }
 
 func (r *aeRun) load(fr *frame, addr any, t types.Type) any {
+	if b, ok := addr.(*avBox); ok {
+		return b.val
+	}
 	a, ok := addr.(avAddr)
 	if !ok {
 		r.oof("load through %T", addr)
@@ -1833,6 +1885,22 @@ func (r *aeRun) opaqueCall(fn *ssa.Function, args []any, why string) any {
 		kept = append(kept, a)
 	}
 	args = kept
+	// an assembled string is named by its template
+	for i, a := range args {
+		if st, ok := a.(avStr); ok {
+			key, side := "", 0
+			for _, pc := range st.parts {
+				switch x := pc.(type) {
+				case avConst:
+					key += constant.StringVal(x.v)
+				case avTerm:
+					key += "{" + x.key + "}"
+					side = x.side
+				}
+			}
+			args[i] = r.mkTerm("`"+key+"`", side, types.Typ[types.String], akOrder, nil)
+		}
+	}
 	side, mixed, keys := sidesOf(args)
 	name := fn.Name()
 	if keys == nil {
